@@ -11,18 +11,37 @@
        H_show_no_space  repr(w) contains no whitespace character: none of Python's 29 str.isspace code points,
                         which include U+0020 and all ten str.splitlines boundaries (linebreak_is_space).
 
-   wf_core W i  (Proofs/WmdIO.v)  :=  data_type "wmd"
-     /\ the nine header fields and all alternative names are single-line and without outer whitespace (they may
-        be empty), the keys of alternatives_name are distinct                       [wf_fields, wf_names]
+   wf_core_rl W i  (Proofs/WmdIO.v; hypothesis of the file-path theorems)  :=  data_type "wmd"
+     /\ every one of the nine header fields and every alternative name v satisfies  wf_field_rl v :=
+           strip v = v  (no leading / trailing whitespace; v may be EMPTY)  /\  v contains no "\n" and no "\r";
+        every other character is allowed: '#', ':', ',', digits, whole fake header or edge lines, and the eight
+        str.splitlines boundaries that a file reader does not treat as line ends (\x0b \x0c \x1c \x1d \x1e \x85 U+2028
+        U+2029) strictly inside a value; the keys of alternatives_name are distinct           [wf_fields_rl, wf_names_rl]
      /\ node_mapping is a dict (distinct keys) of duplicate-free sets whose elements are nodes   [wf_nmap];
         node ids are integers of EITHER SIGN (Z); the keys of alternatives_name are N: only non-negative ids
         can carry a name (the header pattern is (\d+)), so "named alternatives are non-negative" holds by type
      /\ the keys of the weight table are distinct and are exactly the stored edges  [wf_weights]
      /\ num_edges = number of stored edges  /\  there is at least one edge.
-   wf_wmd W show_w read_w i := wf_core W i /\ every weight w stored in i satisfies good_w w, i.e. the four codec
+   wf_core W i is the same with wf_field v := wf_field_rl v /\ none of the ten str.splitlines boundaries in v; it is
+     needed for parse_str only (C09_roundtrip_str, C10) and implies wf_core_rl (C09_wf_core_weaken).
+   wf_wmd_rl W show_w read_w i := wf_core_rl W i /\ every weight w stored in i satisfies good_w w, i.e. the four codec
      facts for that w (the pointwise form: C09_roundtrip_pointwise needs no hypothesis on other weights).
 
-   same_content W show_w read_w i i'  (Proofs/WmdIO.v)  :=
+   WHAT IS EXCLUDED, AND WHY (each class has a witness below on which the round trip really fails in the model; the
+   harness runs the same witnesses on the implementation, label "excluded class ..."):
+     (1) "\n" or "\r" inside a value: the reader cuts the line there (C09_newline_refuted, C09_cr_refuted: ValueError;
+         C09_newline_silent_refuted: parse succeeds and silently truncates the value);
+     (2) leading / trailing whitespace of a value: line.strip() / [k:].strip() removes it (C09_outer_space_refuted,
+         C09_name_trailing_ff_refuted);
+     (3) num_edges different from the number of edges: the writer copies the field, the parser recomputes it, so
+         the second file differs from the first (C09_wrong_num_edges_refuted) - reading decision of DESIGN 7.0;
+     (4) no edge at all: ValueError (C09_needs_an_edge) - the quantifier says "at least one edge";
+     (5) a name on a negative node id: not expressible (keys are N) - the pattern (\d+) cannot read it back;
+     (6) a stored neighbour without weight entry: write raises KeyError (wmd_write_ok); weight entries without edge,
+         duplicate dict keys: not states of a WeightedDiGraph (add_node / add_edge preserve wf_nmap: build_wf);
+     (7) weights whose token violates the codec facts (trusted, tested: CPython repr / float).
+
+   same_content_rl W show_w read_w i i'  (Proofs/WmdIO.v)  :=
         w_meta i' = w_meta i with num_voters := num_alternatives (and the autocorrect scratch set empty):
           every header field, alternatives_name (same keys, names, order) and num_alternatives are unchanged
      /\ (forall n m, m in neighbours i' n  <->  m in neighbours i n)                 same set of directed edges
@@ -30,7 +49,8 @@
      /\ (forall e, e in edges() of i' <-> e in edges() of i)                          edges() as (n1, n2, w) triples
      /\ (forall n, n is a node of i' <-> n is incident to an edge of i)               isolated nodes are lost
      /\ num_edges i' = number of stored edges of i' = num_edges i
-     /\ wf_wmd W show_w read_w i'. *)
+     /\ wf_wmd_rl W show_w read_w i'.
+   (same_content: the same with wf_wmd i' as last clause.) *)
 From Coq Require Import List NArith ZArith Bool String Permutation Sorted.
 From PrefVerif Require Import Lib.Val Lib.Dec Lib.DecZ Lib.PyStr Model.Meta Model.WmdIO.
 From PrefVerif Require Import Proofs.Meta Proofs.WmdSort Proofs.WmdGraph Proofs.WmdIO.
@@ -38,14 +58,17 @@ Import ListNotations.
 Open Scope string_scope.
 Open Scope N_scope.
 
-Print wf_core.
+Print wf_field_rl.
+Print wf_fields_rl.
+Print wf_names_rl.
+Print wf_core_rl.
 Print good_w.
-Print wf_wmd.
-Print wf_fields.
-Print wf_names.
+Print wf_wmd_rl.
+Print wf_core.
+Print wf_field.
 Print wf_nmap.
 Print wf_weights.
-Print same_content.
+Print same_content_rl.
 Print reparsed_meta.
 Print incident.
 
@@ -59,22 +82,23 @@ Section C09.
   Hypothesis H_show_no_space : forall w, forallb (fun c => negb (is_space c)) (show_w w) = true.
 
   (* write, read the file back with parse_file: the parse succeeds and the instance has the same content *)
-  Theorem C09_roundtrip : forall i : winst W, wf_core W i ->
+  Theorem C09_roundtrip : forall i : winst W, wf_core_rl W i ->
     exists i', wmd_parse W read_w false false (meta0 (lit "wmd")) (readlines (wmd_write W show_w i)) = Ok i'
-               /\ same_content W show_w read_w i i'.
-  Proof. exact (codec_roundtrip W show_w read_w H_read_show H_show_nonempty H_show_no_comma H_show_no_space). Qed.
+               /\ same_content_rl W show_w read_w i i'.
+  Proof. exact (codec_roundtrip_rl W show_w read_w H_read_show H_show_nonempty H_show_no_comma H_show_no_space). Qed.
 
   (* writing the re-parsed instance reproduces the file byte for byte (code point for code point) *)
-  Theorem C09_idempotent : forall i i' : winst W, wf_core W i ->
+  Theorem C09_idempotent : forall i i' : winst W, wf_core_rl W i ->
     wmd_parse W read_w false false (meta0 (lit "wmd")) (readlines (wmd_write W show_w i)) = Ok i' ->
     wmd_write W show_w i' = wmd_write W show_w i.
-  Proof. exact (codec_idempotent W show_w read_w H_read_show H_show_nonempty H_show_no_comma H_show_no_space). Qed.
+  Proof. exact (codec_idempotent_rl W show_w read_w H_read_show H_show_nonempty H_show_no_comma H_show_no_space). Qed.
 
   (* the re-parsed instance explicitly (the graph rebuilt by add_edge along the sorted edge list), through
-     parse_file (readlines) and through parse_str (splitlines) *)
-  Theorem C09_roundtrip_file : forall i : winst W, wf_core W i ->
+     parse_file (readlines) and - under the stronger wf_core: no str.splitlines boundary inside a value - through
+     parse_str (splitlines) *)
+  Theorem C09_roundtrip_file : forall i : winst W, wf_core_rl W i ->
     wmd_parse W read_w false false (meta0 (lit "wmd")) (readlines (wmd_write W show_w i)) = Ok (reparsed W i).
-  Proof. exact (codec_roundtrip_readlines W show_w read_w H_read_show H_show_nonempty H_show_no_comma H_show_no_space). Qed.
+  Proof. exact (codec_roundtrip_readlines_rl W show_w read_w H_read_show H_show_nonempty H_show_no_comma H_show_no_space). Qed.
 
   Theorem C09_roundtrip_str : forall i : winst W, wf_core W i ->
     wmd_parse W read_w false false (meta0 (lit "wmd")) (splitlines (wmd_write W show_w i)) = Ok (reparsed W i).
@@ -82,36 +106,51 @@ Section C09.
 
   (* header_only = True on the written file: same header fields, names and counts, num_edges as printed in the
      header, num_voters = num_alternatives, empty graph (used by C10) *)
-  Theorem C09_header_only : forall i : winst W, wf_core W i ->
+  Theorem C09_header_only : forall i : winst W, wf_core_rl W i ->
     wmd_parse W read_w false true (meta0 (lit "wmd")) (readlines (wmd_write W show_w i)) =
     Ok (mkW (reparsed_meta (w_meta i)) (w_num_edges i) [] []).
-  Proof. exact (codec_header_only W show_w read_w H_read_show H_show_nonempty H_show_no_comma H_show_no_space). Qed.
+  Proof. exact (codec_header_only_rl W show_w read_w H_read_show H_show_nonempty H_show_no_comma H_show_no_space). Qed.
 End C09.
 
 (* the pointwise form: only the weights stored in the instance have to be printed / read back faithfully *)
-Theorem C09_roundtrip_pointwise : forall W show_w read_w (i : winst W), wf_wmd W show_w read_w i ->
+Theorem C09_roundtrip_pointwise : forall W show_w read_w (i : winst W), wf_wmd_rl W show_w read_w i ->
   wmd_parse W read_w false false (meta0 (lit "wmd")) (readlines (wmd_write W show_w i)) = Ok (reparsed W i)
-  /\ same_content W show_w read_w i (reparsed W i)
+  /\ same_content_rl W show_w read_w i (reparsed W i)
   /\ wmd_write W show_w (reparsed W i) = wmd_write W show_w i.
 Proof.
-  intros W show_w read_w i H. split; [exact (roundtrip_readlines W show_w read_w i H)|].
-  split; [exact (reparsed_same_content W show_w read_w i H)|exact (write_reparsed W show_w read_w i H)].
+  intros W show_w read_w i H. split; [exact (roundtrip_readlines_rl W show_w read_w i H)|].
+  split; [exact (reparsed_same_content_rl W show_w read_w i H)|exact (write_reparsed_rl W show_w read_w i H)].
 Qed.
+
+(* the hypothesis of the file-path theorems is weaker than the one needed for parse_str *)
+Theorem C09_wf_core_weaken : forall W (i : winst W), wf_core W i -> wf_core_rl W i.
+Proof. exact wf_core_weaken. Qed.
+
+(* no written line is mis-classified by the header loop, whatever '#', ':', ',' or digits the values contain *)
+Theorem C09_lines_classified : forall W show_w read_w (i : winst W), wf_wmd_rl W show_w read_w i ->
+  Forall hdr_ok (meta_lines (w_meta i) ++ [count_alts_line (num_alternatives (w_meta i))] ++
+                 alt_name_lines (alt_names (w_meta i))) /\
+  (is_hash_line (strip (count_edges_line (w_num_edges i))) = true /\
+   startswith (lit "# NUMBER EDGES") (strip (count_edges_line (w_num_edges i))) = true /\
+   py_int (drop 15 (strip (count_edges_line (w_num_edges i)))) = Ok (w_num_edges i)) /\
+  Forall (fun l => is_hash_line (strip (l ++ nl)%list) = false) (elines W show_w (sorted_weights W i)).
+Proof. exact lines_classified. Qed.
+Print hdr_ok.
 
 (* the instantiation that is extracted and run by the harness (Ops/C09.v): a weight is its raw token; tok_ok t =
    the token is non-empty and contains neither "," nor whitespace *)
 Print tok_ok.
 Theorem C09_roundtrip_tokens : forall i : twinst,
-  wf_core text i -> Forall (fun e => tok_ok (snd e) = true) (w_weights i) ->
+  wf_core_rl text i -> Forall (fun e => tok_ok (snd e) = true) (w_weights i) ->
   exists i', wmd_parse_tok false false (meta0 (lit "wmd")) (readlines (wmd_write_tok i)) = Ok i'
-             /\ same_content text tok_show tok_read i i'.
-Proof. intros i H F. apply tok_roundtrip. now split. Qed.
+             /\ same_content_rl text tok_show tok_read i i'.
+Proof. intros i H F. apply tok_roundtrip_rl. now split. Qed.
 
 Theorem C09_idempotent_tokens : forall i i' : twinst,
-  wf_core text i -> Forall (fun e => tok_ok (snd e) = true) (w_weights i) ->
+  wf_core_rl text i -> Forall (fun e => tok_ok (snd e) = true) (w_weights i) ->
   wmd_parse_tok false false (meta0 (lit "wmd")) (readlines (wmd_write_tok i)) = Ok i' ->
   wmd_write_tok i' = wmd_write_tok i.
-Proof. intros i i' H F. apply tok_idempotent. now split. Qed.
+Proof. intros i i' H F. apply tok_idempotent_rl. now split. Qed.
 
 (* the sort used by the writer sorts *)
 Theorem C09_sort_sorts : forall l, StronglySorted Z.le (isort_Z l) /\ Permutation l (isort_Z l).
@@ -132,6 +171,8 @@ Print Assumptions C09_roundtrip_file.
 Print Assumptions C09_roundtrip_str.
 Print Assumptions C09_header_only.
 Print Assumptions C09_roundtrip_pointwise.
+Print Assumptions C09_wf_core_weaken.
+Print Assumptions C09_lines_classified.
 Print Assumptions C09_roundtrip_tokens.
 Print Assumptions C09_idempotent_tokens.
 Print Assumptions C09_sort_sorts.
@@ -217,3 +258,62 @@ Proof.
   destruct (Z.eqb n 1); [cbn; intuition|]. destruct (Z.eqb n (-2)); cbn; intuition.
 Qed.
 Print Assumptions C09_needs_an_edge.
+
+(* ---- the excluded classes really fail: witnesses (ex_inst with one field changed); rt = write, then parse_file ---- *)
+Open Scope list_scope.
+Definition rt (i : winst N) : result (winst N) :=
+  wmd_parse N read_N false false (meta0 (lit "wmd")) (readlines (wmd_write N show_N i)).
+Definition with_meta (m : meta) : winst N := mkW m (w_num_edges ex_inst) (w_nodes ex_inst) (w_weights ex_inst).
+
+(* (1) "\n" / "\r" strictly inside a value that strip() leaves alone: the reader cuts the line, the rest is taken
+   for an edge line -> ValueError *)
+Theorem C09_newline_refuted :
+  let v := lit "a" ++ [10] ++ lit "b" in strip v = v /\ rt (with_meta (set_title ex_meta v)) = Err ValueErr.
+Proof. split; vm_compute; reflexivity. Qed.
+Theorem C09_cr_refuted :
+  let v := lit "a" ++ [13] ++ lit "b" in strip v = v /\ rt (with_meta (set_title ex_meta v)) = Err ValueErr.
+Proof. split; vm_compute; reflexivity. Qed.
+Theorem C09_name_newline_refuted :
+  let v := lit "x" ++ [10] ++ lit "y" in strip v = v /\ rt (with_meta (set_alt_names ex_meta [(1, v)])) = Err ValueErr.
+Proof. split; vm_compute; reflexivity. Qed.
+(* ... or, when the rest happens to look like a header line, the parse succeeds and the value is silently cut *)
+Theorem C09_newline_silent_refuted :
+  let v := lit "a" ++ [10] ++ lit "# b" in
+  strip v = v /\ rmap (fun i' => title (w_meta i')) (rt (with_meta (set_title ex_meta v))) = Ok (lit "a").
+Proof. split; vm_compute; reflexivity. Qed.
+(* (2) outer whitespace of a value is stripped by the parser: " a" comes back as "a", "x\x0c" as "x" *)
+Theorem C09_outer_space_refuted :
+  rmap (fun i' => title (w_meta i')) (rt (with_meta (set_title ex_meta (lit " a")))) = Ok (lit "a").
+Proof. vm_compute. reflexivity. Qed.
+Theorem C09_name_trailing_ff_refuted :
+  rmap (fun i' => alt_names (w_meta i')) (rt (with_meta (set_alt_names ex_meta [(1, lit "x" ++ [12])]))) = Ok [(1, lit "x")].
+Proof. vm_compute. reflexivity. Qed.
+(* (3) num_edges that is not the number of edges (5 for 3 edges): the parser recomputes it, the second file differs *)
+Theorem C09_wrong_num_edges_refuted :
+  let i := mkW ex_meta 5 (w_nodes ex_inst) (w_weights ex_inst) in
+  rmap (fun i' => (w_num_edges i', teqb (wmd_write N show_N i') (wmd_write N show_N i))) (rt i) = Ok (3, false).
+Proof. vm_compute. reflexivity. Qed.
+(* (4) no edge: C09_needs_an_edge above *)
+Print Assumptions C09_newline_refuted.
+Print Assumptions C09_wrong_num_edges_refuted.
+
+(* inside the weakened hypothesis: '#', ':', ',' , a fake NUMBER EDGES line as title, a fake edge line as name, a
+   form feed and U+2028 strictly inside values *)
+Definition ex_tricky : winst N :=
+  with_meta (mkMeta (lit "# NUMBER EDGES: 99") (lit "# ALTERNATIVE NAME 1: zz") (lit ": ,# {") (lit "wmd") (lit "1, 2, 0.5")
+                    (lit "Ward" ++ [12] ++ lit "4") (lit "St Mary" ++ [8232] ++ lit "(annex)") (lit "#") (lit ":")
+                    3 17 [(2, lit "# NUMBER ALTERNATIVES: 7"); (1, lit "-2, 1, 9"); (3, lit "a" ++ [133; 11] ++ lit "b")] []).
+Example C09_ex_tricky :
+  wf_fields_rl (w_meta ex_tricky) /\ wf_names_rl (alt_names (w_meta ex_tricky)) /\
+  rmap (fun i' => w_meta i') (rt ex_tricky) = Ok (set_num_voters (w_meta ex_tricky) 3) /\
+  rmap (fun i' => teqb (wmd_write N show_N i') (wmd_write N show_N ex_tricky)) (rt ex_tricky) = Ok true.
+Proof.
+  split.
+  { unfold wf_fields_rl, wf_field_rl, wf_value. cbn [ex_tricky with_meta w_meta file_name title description data_type
+      modification_type relates_to related_files publication_date modification_date]. repeat split; vm_compute; reflexivity. }
+  split.
+  { split.
+    - repeat constructor; vm_compute; reflexivity.
+    - repeat constructor; cbn; intuition discriminate. }
+  split; vm_compute; reflexivity.
+Qed.
